@@ -68,7 +68,8 @@ class Conn:
         self.cid = cid
         self.name = name
         self.to_server = net.queue_factory()
-        self.client_sink = None
+        self._client_sink = None
+        self._client_backlog = []
         self.told = {'server': False, 'client': False}
         self.severed = False
         self.last = {'c2s': 0.0, 's2c': 0.0}
@@ -76,6 +77,27 @@ class Conn:
         self.nframes = {'c2s': 0, 's2c': 0}
         self.server_task = None
         self.drop_hook = None   # callable(direction, index, data)->bool: sever
+
+    # the client end may be attached after the server has already answered
+    # (the opener can be pre-empted between open() and attaching): frames
+    # wait in a backlog, nothing is lost
+    @property
+    def client_sink(self):
+        return self._client_sink
+
+    @client_sink.setter
+    def client_sink(self, sink):
+        self._client_sink = sink
+        if sink is not None:
+            backlog, self._client_backlog = self._client_backlog, []
+            for item in backlog:
+                sink(item)
+
+    def _to_client(self, item):
+        if self._client_sink is None:
+            self._client_backlog.append(item)
+        else:
+            self._client_sink(item)
 
     # ---- sending ------------------------------------------------------
     def post(self, d, data, lat=None):
@@ -134,8 +156,8 @@ class Conn:
             if not self.told['server']:
                 self.to_server.put_nowait(data)
         else:
-            if not self.told['client'] and self.client_sink is not None:
-                self.client_sink(data)
+            if not self.told['client']:
+                self._to_client(data)
 
     # ---- ending -------------------------------------------------------
     def close(self, by, lat=None):
@@ -165,8 +187,8 @@ class Conn:
         self.told[side] = True
         if side == 'server':
             self.to_server.put_nowait(CLOSED)
-        elif self.client_sink is not None:
-            self.client_sink(CLOSED)
+        else:
+            self._to_client(CLOSED)
 
     def sever(self, tell_server=0.0, tell_client=0.0):
         """Abrupt loss: frames in flight are gone; each side learns of it after
